@@ -4,6 +4,7 @@ import (
 	"fmt"
 	"time"
 
+	"github.com/openziti/storage/ast"
 	"github.com/openziti/storage/objectz"
 	"go.etcd.io/bbolt"
 	"sync"
@@ -230,6 +231,25 @@ func runC19(c *core.Ctx, idx int) {
 						}
 						if oerr != nil {
 							continue
+						}
+						// a compiled query belongs to its caller: it is run twice (a caller that keeps its parsed query for the
+						// next poll) and must answer the same both times, with the paging it was given
+						if (sk != nil || lm.v != nil) && (fi+si+len(text))%3 == 0 {
+							if cq, perr := ast.Parse(os, text); perr == nil {
+								for run := 1; run <= 2; run++ {
+									cents, ccount, cerr := os.QueryEntitiesC(cq)
+									var cids []string
+									for _, e := range cents {
+										cids = append(cids, e.id)
+									}
+									c.Eval()
+									c.Count("compiled_query_runs", 1)
+									if cerr != nil || !sameIds(cids, oids) || ccount != ocount {
+										c.Violationf(fmt.Sprintf("C19 object store: run %d of a compiled query differs from the answer to its text: %s", run, gridKey), info, "query %q: run %d gave %q count %d err=%v, QueryEntities gave %q count %d", text, run, cids, ccount, cerr, oids, ocount)
+										break
+									}
+								}
+							}
 						}
 						if len(replay) < 40 && (len(replay) == 0 || replay[len(replay)-1].text != text) {
 							replay = append(replay, c19Replay{text: text, ids: append([]string{}, oids...), count: ocount})
